@@ -109,9 +109,10 @@ impl EngineIf {
     #[verifier::external_body]
     pub async fn verify_pregenesis_block(&self, ctx: &Ctx, block: &PreGenesisBlock) -> (r: Result<(), AnyhowError>)
         ensures r.is_ok() ==> pregenesis_ok(self, *block) { unimplemented!() }
-    // A5: get_block serves the persisted range
+    // A5: the persistent store returns the block with the number asked for (or an error, e.g. when it was pruned)
     #[verifier::external_body]
-    pub async fn get_block(&self, ctx: &Ctx, number: BlockNumber) -> (r: Result<Block, CtxError>) { unimplemented!() }
+    pub async fn get_block(&self, ctx: &Ctx, number: BlockNumber) -> (r: Result<Block, CtxError>)
+        ensures r matches Ok(b) ==> b.num() == number { unimplemented!() }
 }
 impl EpochSchedules { pub uninterp spec fn get(&self, e: EpochNumber) -> Option<ScheduleWithLifetime>; }
 impl WatchBlockStore {
@@ -166,6 +167,16 @@ def add_engine(U):
     requires validators_schedule.wf(),
     ensures r.is_ok() <==> (PayloadHash(keccak(self.payload.0@)) == self.justification.message.proposal.payload
                             && self.justification.valid(genesis, epoch, validators_schedule)),
+""")
+    U.fn(F_MGR, "impl EngineManager :: fn get_block", wrap="impl EngineManager", ret="r",
+         header_subs=[("ctx::Ctx", "Ctx"), ("validator::BlockNumber", "BlockNumber"), ("ctx::Result<Option<Block>>", "Result<Option<Block>, CtxError>")],
+         subs=[("let t = metrics::$X;", "", 1), ("t.observe();", "", 1),
+               ("let block_store = self.block_store.borrow();", "let block_store = self.block_store.borrow(); let ghost verif_bs = *block_store;   /* W-ghost */")],
+         rules_=("R-log", "R-errmsg", "R-underscore", "R-ctorfn"),
+         spec="""
+    ensures
+        // whatever is returned IS block `number` (never a different block for that number), from the cache or from durable storage
+        r matches Ok(Some(b)) ==> b.num() == number,
 """)
     U.fn(F_MGR, "impl EngineManager :: fn queue_block", wrap="impl EngineManager", ret="r",
          header_subs=[("ctx::Ctx", "Ctx"), ("ctx::Result<()>", "Result<(), CtxError>")],
